@@ -797,6 +797,11 @@ func flameRegister(f *flamego.Flame, method, txt string, idx int, hit *int, seen
 // flameRegisterVia: viaRoutes = the method string is a comma list given to Routes() (one Route object for all
 // of them); otherwise it is given to Route() as it is.
 func flameRegisterVia(f *flamego.Flame, viaRoutes bool, method, txt string, idx int, hit *int, seen *map[string]string) (rt *flamego.Route, pan interface{}) {
+	return flameRegisterArgs(f, viaRoutes, method, nil, txt, idx, hit, seen)
+}
+
+// flameRegisterArgs: extra = further method names handed to Routes() as leading string arguments.
+func flameRegisterArgs(f *flamego.Flame, viaRoutes bool, method string, extra []string, txt string, idx int, hit *int, seen *map[string]string) (rt *flamego.Route, pan interface{}) {
 	defer func() {
 		if x := recover(); x != nil {
 			pan = x
@@ -813,7 +818,11 @@ func flameRegisterVia(f *flamego.Flame, viaRoutes bool, method, txt string, idx 
 		c.Params()["left-behind-by-an-earlier-request"] = txt
 	}
 	if viaRoutes {
-		rt = f.Routes(txt, method, h)
+		var args []flamego.Handler
+		for _, m := range extra {
+			args = append(args, m)
+		}
+		rt = f.Routes(txt, method, append(args, h)...)
 		return
 	}
 	rt = f.Route(method, txt, []flamego.Handler{h})
